@@ -17,7 +17,7 @@ TRUSTED = {
     'A8': 'A8 termination of display_width\'s loop: the proved invariant shows remaining() strictly shrinks, but Verus forbids prophetic values in '
           'decreases (exec_allows_no_decreases_clause on that one function)',
     'A9': 'A9 tiling contracts of the closure-based callees: word ++ whitespace concatenate to the line. For the ASCII separator this is PROVED (unit U13, '
-          'find_words_ascii_space after closure conversion R16); for split_words it is PROVED (unit U14) relative to the assumed shape of WordSplitter::split_points, for break_apart it is PROVED (unit U15); for the Unicode separator it is assumed in Verus and checked exhaustively within scope by BEC (C11/C12 contracts)',
+          'find_words_ascii_space after closure conversion R16); for split_words it is PROVED (unit U14) relative to the assumed shape of WordSplitter::split_points, for break_apart it is PROVED (unit U15), for the Unicode separator it is PROVED (unit U20) relative to the assumed shape A13 of unicode_linebreak::linebreaks; U11 restates these contracts as assumptions in Verus and checked exhaustively within scope by BEC (C11/C12 contracts)',
     'A10': 'A10 (discharged) char-boundary safety of &line[idx..idx+len] in wrap\'s reassembly is now PROVED in U11 (the seam between valid UTF-8 pieces is a char boundary), '
            'and String::from_utf8(..).unwrap() in fill_inplace is proved not to fail in U10 (overwriting an ASCII byte by an ASCII byte keeps UTF-8 validity)',
     'A11': 'A11 stated preconditions: wrap_optimal_fit: fragments.len() < usize::MAX; wrap_columns: columns <= isize::MAX and '
@@ -42,7 +42,7 @@ KANI = {'K1.default': K1, 'K1.no-default-features': K1MIN, 'K2.first_fit_n3': K2
 
 PROPS = {
     'C01': {
-        'units': ['U11', 'U6', 'U1', 'U13', 'U14', 'U15', 'U17'], 'level': 'other', 'trusted': ['A1', 'A3', 'A4', 'A5', 'A9', 'A10', 'A12', 'A14', 'A15', 'R15', 'R16'],
+        'units': ['U11', 'U6', 'U1', 'U13', 'U14', 'U15', 'U17', 'U20'], 'level': 'other', 'trusted': ['A1', 'A3', 'A4', 'A5', 'A9', 'A10', 'A12', 'A14', 'A15', 'R15', 'R16'],
         'proved_part': 'Verus (all inputs): wrap_single_line_slow_path appends, for an ordered partition (runs) of a tiling of the line, exactly '
                        'indent_k ++ line[a_k .. a_k+len_k] ++ penalty_k with a_k = bytes of all earlier runs (whitespace included) and len_k = bytes of run k minus its last '
                        'whitespace — so slices are in order, never overlap, and only trailing whitespace of each run is skipped; earlier lines are untouched; Word::from is lossless '
@@ -71,7 +71,7 @@ PROPS = {
         'explanation': 'Mixed: the cost model and the structure are proved; minimality is bounded-only (Verus has no float theory; SMAWK\'s guarantee needs total monotonicity).',
     },
     'C04': {
-        'units': ['U1', 'U2', 'U3', 'U4', 'U5', 'U6', 'U8', 'U9', 'U10', 'U11', 'U12', 'U13', 'U14', 'U15', 'U16', 'U17', 'U18'], 'level': 'other', 'kani': [K1, K1MIN],
+        'units': ['U1', 'U2', 'U3', 'U4', 'U5', 'U6', 'U8', 'U9', 'U10', 'U11', 'U12', 'U13', 'U14', 'U15', 'U16', 'U17', 'U18', 'U19', 'U20', 'U21'], 'level': 'other', 'kani': [K1, K1MIN],
         'trusted': ['A1', 'A2', 'A3', 'A4', 'A5', 'A6', 'A7', 'A8', 'A9', 'A10', 'A11', 'A12', 'R15'],
         'proved_part': 'Verus: absence of panics (index/slice bounds incl. char boundaries in NonEmptyLines, arithmetic overflow, unwrap on None, callee preconditions) and '
                        'termination for wrap_first_fit, wrap_optimal_fit (Err only from the is_infinite test), skip_ansi_escape_sequence, display_width (A8), NonEmptyLines::next, '
@@ -82,8 +82,10 @@ PROPS = {
                        'UAX #14 tables), unfill/refill and the thin public wrappers are covered by bounded exhaustive execution only.',
     },
     'C05': {
-        'units': ['U3'], 'level': 'other', 'kani': [K1, K1MIN], 'trusted': ['A2', 'A3', 'A8', 'A12'],
-        'proved_part': 'Verus + Kani: display_width(t) <= t.len() for every text — the soundness lemma of the byte-length shortcut.',
+        'units': ['U3', 'U11', 'U19'], 'level': 'other', 'kani': [K1, K1MIN], 'trusted': ['A2', 'A3', 'A4', 'A8', 'A9', 'A12', 'R15'],
+        'proved_part': 'Verus + Kani: display_width(t) <= t.len() for every text — the soundness lemma of the byte-length shortcut. U11: when wrap_single_line takes the shortcut it '
+                       'appends exactly one line, indent-free, equal to the paragraph with trailing spaces removed; for a text without the line ending that is wrap\'s whole result. '
+                       'U19: fill\'s shortcut returns exactly that line, so fill == wrap\'s lines joined on both sides of the shortcut (given U11/U12\'s restated contracts).',
         'bounded_part': 'BEC: wrap_single_line == wrap_single_line_slow_path and fill == fill_slow_path (upstream cfg(fuzzing) entry points) for every text in scope and widths on '
                         'both sides of the shortcut condition; "fits => exactly [indent ++ trimmed paragraph]".',
         'explanation': 'Mixed: the lemma that makes the shortcut sound is proved; equality of the two code paths is relational over two calls and checked by bounded exhaustive enumeration.',
@@ -112,9 +114,10 @@ PROPS = {
         'explanation': 'Mixed: the first sentence is proved completely (postcondition `indented` of wrap); the second sentence is relational and bounded.',
     },
     'C09': {
-        'units': ['U11', 'U12'], 'level': 'other', 'trusted': ['A3', 'A4', 'A9', 'A12', 'R15'],
+        'units': ['U11', 'U12', 'U19'], 'level': 'other', 'trusted': ['A3', 'A4', 'A9', 'A12', 'R15'],
         'proved_part': 'Verus: each paragraph appends >= 1 line and never touches earlier lines (never fewer lines than paragraphs, never joined across a break); '
-                       'fill_slow_path == wrap\'s lines joined by the configured line ending.',
+                       'fill_slow_path == wrap\'s lines joined by the configured line ending (U12); fill == wrap\'s lines joined for every text, shortcut included (U19, over '
+                       'the contracts of U11 and U12 restated in that unit).',
         'bounded_part': 'BEC: wrap(a+E+b) begins with wrap(a), the rest is independent of a and equals wrap(b) for empty indents; LF<->CRLF equivariance; fill fast path.',
         'explanation': 'Mixed: append-only structure and the join are proved; independence is relational over several calls and bounded.',
     },
@@ -127,14 +130,16 @@ PROPS = {
         'explanation': 'Proof: display_width equals the spec function written from the statement, for all texts (Verus); per-char facts for all chars (Kani, and exhaustive enumeration).',
     },
     'C11': {
-        'units': ['U6', 'U13', 'U3'], 'level': 'other', 'trusted': ['A3', 'A4', 'A12', 'A13'],
+        'units': ['U6', 'U13', 'U3', 'U20'], 'level': 'other', 'trusted': ['A3', 'A4', 'A12', 'A13'],
         'proved_part': 'Verus: Word::from — word ++ whitespace is the input, whitespace is spaces only, the word does not end in a space, width == display width, no penalty. '
                        'ASCII separator (U13, all lines): every word is Word::from(line[s0..s1]) where s1 is the first position after s0 at which a space is followed by a non-space '
                        '(or the end of the line) — the boundaries are exactly those positions — and the collected words tile the line.',
-        'bounded_part': 'BEC: the Unicode separator (needs the external unicode-linebreak tables): losslessness; boundaries == UAX #14 opportunities of the stripped line minus those '
-                        'after \'-\'/SHY, none inside an escape sequence; and both separators again by execution.',
-        'explanation': 'Mixed: per-word construction and the complete ASCII half of the statement are proved (closure conversion R16 brings the from_fn closure to Verus); the Unicode half '
-                       'depends on the external UAX #14 implementation and is checked by bounded exhaustive enumeration.',
+        'bounded_part': 'BEC: that every kept opportunity yields a boundary (completeness of the Unicode half), the real unicode-linebreak tables behind the assumed shape A13, '
+                        'and every clause of both halves again by execution.',
+        'explanation': 'Mixed, mostly proved: per-word construction, the complete ASCII half, and for the Unicode separator (U20, its three closures via conversion R16, and '
+                       'strip_ansi_escape_sequences in U3) losslessness, the filter rule (not at the end of the stripped text, not directly after \'-\' or a soft hyphen) and '
+                       'soundness of the mapping (every boundary is a fresh position of the line — never inside an escape sequence — whose stripped offset is a kept opportunity), '
+                       'relative to the assumed shape of unicode_linebreak::linebreaks. Completeness of the mapping is bounded-only.',
     },
     'C12': {
         'units': ['U6', 'U14', 'U15', 'U16'], 'level': 'other', 'trusted': ['A3', 'A4', 'A9', 'A12', 'R15'],
@@ -153,7 +158,7 @@ PROPS = {
                        'custom splitters are opaque (their split points are assumed to be increasing char boundaries inside the word).',
     },
     'C13': {
-        'units': ['U3', 'U15'], 'level': 'other', 'trusted': ['A2', 'A4', 'A8', 'A12', 'R16'],
+        'units': ['U3', 'U15', 'U20'], 'level': 'other', 'trusted': ['A2', 'A4', 'A8', 'A12', 'R16'],
         'proved_part': 'Verus lemma: well-formed sequences contribute nothing to display_width, so coloured and stripped words have equal widths. Force-breaking (U15, '
                        'Word::break_apart after closure conversion) cuts only at fresh positions of the word — never inside an escape sequence, none is dropped.',
         'bounded_part': 'BEC: strip(wrap(coloured)) == wrap(strip(coloured)); no sequence cut or dropped.',
@@ -177,9 +182,13 @@ PROPS = {
                        'NonEmptyLines and str::lines is a proved lemma); the round-trip half is relational and checked by bounded exhaustive enumeration (known finding KF2 lies in it).',
     },
     'C16': {
-        'units': [], 'level': 'exploration', 'trusted': [],
-        'bounded_part': 'BEC only.',
-        'explanation': 'Bounded only: relational over fill/refill.',
+        'units': ['U21'], 'level': 'other', 'trusted': ['A3', 'A4', 'R15'],
+        'proved_part': 'Verus, all inputs (U21): refill(x, o2) == fill(unfill(x).text without its final line ending, o2 with the two indents unfill(x) detected) '
+                       '++ (o2\'s line ending if one was removed) — the composition in C16\'s equation, with unfill and fill abstract. U18: unfill\'s structural contract '
+                       '(indents are prefixes made of prefix characters, no inner line break, line-ending rule).',
+        'bounded_part': 'BEC: the equation refill(fill(t, o1), o2) == fill(t, o2 with o1\'s indents) itself, i.e. that unfill inverts fill on C15\'s paragraphs (relational over '
+                        'two calls), trailing line ending conversion, independence of the first width.',
+        'explanation': 'Mixed: how refill composes unfill and fill is proved for all inputs; that unfill(fill(t)) gives back t and the indents is relational and bounded.',
     },
     'C17': {
         'units': ['U10', 'U1', 'U13'], 'level': 'other', 'trusted': ['A1', 'A3', 'A4', 'A5', 'A9', 'A12', 'R16'],
